@@ -1233,7 +1233,11 @@ def rule_lut_placement_step(repo, rep):
         raise AnalysisError("optimize_high_level_cmd_stream: find_best_address call not found")
     addr_var = str(norm(calls[0].targets[0]))
     recv = [str(norm(st.targets[0].value)) for st in ast.walk(fn) if isinstance(st, ast.Assign) and isinstance(st.targets[0], ast.Attribute) and st.targets[0].attr == "address" and str(norm(st.value)) == addr_var]
-    step = str(norm(calls[0].value.args[2]))
+    step_e = calls[0].value.args[2]
+    if isinstance(step_e, ast.Name):
+        ds = [st.value for st in ast.walk(fn) if isinstance(st, ast.Assign) and len(st.targets) == 1 and str(norm(st.targets[0])) == step_e.id]
+        step_e = ds[-1] if len(ds) == 1 else step_e
+    step = str(norm(step_e))
     ok = len(recv) == 1 and step == f"{recv[0]}.storage_size()"
     rep.check(ok, "C02-ab", site, f"the LUT is placed on a multiple of its own size: step `{step}`", f"step `{step}` is not the storage size of `{recv}`: a 2 KiB table can be placed 1 KiB below the end of the 2 KiB LUT area - its DMA writes 1 KiB beyond the SHRAM")
     fb = lm.func("LUTState.find_best_address")
